@@ -40,6 +40,8 @@ def first_value_assigned(body, eb, start, stop_at=None, maxsteps=12):
 
 def variant_of(node):
     """variant name if node is (possibly Ok/Some-wrapped) unit enum aggregate"""
+    if node is None:
+        return None
     n = strip(node)
     for _ in range(3):
         if n[0] == "agg" and n[1].split("::")[-1] in ("Ok", "Some") and len(n[3]) == 1:
@@ -448,7 +450,7 @@ def predicate_table(sc, fields, enums):
     return names, out
 
 
-def eval_return(sc, atom_value, maxsteps=120, try_atoms=False):
+def eval_return(sc, atom_value, maxsteps=120, try_atoms=False, subst_result=False):
     """walk a body under an atom assignment and return the (rewritten) node last assigned to the return place.  A `?` takes its Continue edge unless
     try_atoms is set and atom_value decides the discriminant of the Try::branch result itself ("0" Continue, "1" Break)"""
     body = sc.body
@@ -490,6 +492,9 @@ def eval_return(sc, atom_value, maxsteps=120, try_atoms=False):
         t = body.blocks[b]["term"]
         k = t["t"]
         if k == "return":
+            if subst_result and result is not None and env and result[0] != "stuck":
+                # `let x = match .. {..}; a && x`: the returned local takes the value it was given on the path walked
+                return strip(subst(result))
             return subst(result) if (result is not None and env and not isinstance(result, tuple)) else result
         if k == "goto":
             b = t["to"]
@@ -576,3 +581,144 @@ def resolve_helpers(prog, node, atom_value, depth=0):
     if k == "discr":
         return ("discr", resolve_helpers(prog, n[1], atom_value, depth))
     return n
+
+
+# --- decision trees over one angle (a classifier that is not a flat if/else-if chain) -------------------------------------------------------
+
+def _num_eval(n, x, depth=0):
+    """value (Fraction, or bool) of a node whose only free quantity is the function's first parameter, bound to the Fraction x; None when
+    the node holds anything else.  Knows normalize(v, s, e) (utils::normalize: v reduced into [s, e) by the period e - s), abs, negation,
+    the four arithmetic operations and the six comparisons - what an angle classifier is made of."""
+    import math
+    if depth > 24:
+        return None
+    n = strip(n)
+    k = n[0]
+    if k == "arg":
+        return x
+    if k == "k":
+        if n[1] in ("true", "false"):
+            return n[1] == "true"
+        try:
+            return Fraction(n[1])
+        except Exception:
+            return None
+    if k == "cast":
+        return _num_eval(n[1], x, depth + 1)
+    if k == "un":
+        v = _num_eval(n[2], x, depth + 1)
+        if v is None:
+            return None
+        if n[1] == "Neg":
+            return -v
+        if n[1] == "Not" and isinstance(v, bool):
+            return not v
+        return None
+    if k == "bin":
+        a, b = _num_eval(n[2], x, depth + 1), _num_eval(n[3], x, depth + 1)
+        if a is None or b is None:
+            return None
+        op = n[1]
+        if op in ("Lt", "Le", "Gt", "Ge", "Eq", "Ne"):
+            return {"Lt": a < b, "Le": a <= b, "Gt": a > b, "Ge": a >= b, "Eq": a == b, "Ne": a != b}[op]
+        if isinstance(a, bool) or isinstance(b, bool):
+            if op in ("BitAnd", "BitOr") and isinstance(a, bool) and isinstance(b, bool):
+                return (a and b) if op == "BitAnd" else (a or b)
+            return None
+        if op == "Add":
+            return a + b
+        if op == "Sub":
+            return a - b
+        if op == "Mul":
+            return a * b
+        if op == "Div" and b != 0:
+            return a / b
+        return None
+    if k == "call":
+        nm = short_callee(n[1])
+        vs = [_num_eval(a, x, depth + 1) for a in n[2]]
+        if any(v is None or isinstance(v, bool) for v in vs):
+            return None
+        if nm == "normalize" and len(vs) == 3 and vs[2] != vs[1]:
+            v, s, e = vs
+            return (v - s) - math.floor((v - s) / (e - s)) * (e - s) + s
+        if nm == "abs" and len(vs) == 1:
+            return abs(vs[0])
+        return None
+    return None
+
+
+def classify_by_walk(prog, fn, x):
+    """class (variant name) the function returns for its first parameter = x, by walking its CFG with every switch decided by `_num_eval`;
+    None when a switch or the result cannot be evaluated"""
+    sc = Scope(prog, fn)
+
+    def at(n):
+        v = _num_eval(n, x)
+        if isinstance(v, bool):
+            return "1" if v else "0"
+        return None
+    r = eval_return(sc, at, maxsteps=400, subst_result=True)
+    if r is None or (isinstance(r, tuple) and r and r[0] == "stuck"):
+        return None
+    return variant_of(r)
+
+
+def walk_constants(prog, fn):
+    """(float constants compared in the function's switches, True when the parameter is read only through normalize(.., s, s + 360))"""
+    sc = Scope(prog, fn)
+    body = fn.body
+    ks, mod360 = set(), True
+
+    def scan(n, under):
+        nonlocal mod360
+        n = strip(n)
+        if n[0] == "k":
+            try:
+                ks.add(Fraction(n[1]))
+            except Exception:
+                pass
+        elif n[0] == "arg":
+            if not under:
+                mod360 = False
+        elif n[0] == "call":
+            u = under
+            if short_callee(n[1]) == "normalize" and len(n[2]) == 3:
+                s, e = _num_eval(n[2][1], Fraction(0)), _num_eval(n[2][2], Fraction(0))
+                if s is not None and e is not None and e - s == 360:
+                    u = True
+            for a in n[2]:
+                scan(a, u)
+        elif n[0] == "bin":
+            scan(n[2], under); scan(n[3], under)
+        elif n[0] == "un":
+            scan(n[2], under)
+        elif n[0] == "cast":
+            scan(n[1], under)
+    for b in body.blocks:
+        t = (body.blocks[b] if isinstance(body.blocks, dict) else b)["term"]
+        if t["t"] == "switch":
+            try:
+                scan(sc.operand(t["d"]), False)
+            except Exception:
+                mod360 = False
+    return ks, mod360
+
+
+def angle_points(consts, lo=0, hi=360):
+    """every place in [lo, hi] where a classifier built from normalize/abs/comparisons with these constants can change class (c, -c, +-c + 360k),
+    the midpoints between them, and the ends"""
+    cs = {Fraction(lo), Fraction(hi)}
+    for c in consts:
+        for s in (c, -c):
+            for k in (-2, -1, 0, 1, 2):
+                v = s + 360 * k
+                if lo <= v <= hi:
+                    cs.add(v)
+    cs = sorted(cs)
+    pts = []
+    for i, c in enumerate(cs):
+        pts.append(c)
+        if i + 1 < len(cs):
+            pts.append((c + cs[i + 1]) / 2)
+    return pts
